@@ -98,9 +98,9 @@ package redisemu
 //@ requires bucketCount == uint32(1)<<uint(mm)
 //@ modifies rd->buckets alloc
 //@ ensures size: len(rd.buckets) == int(bucketCount)
-//@ ensures [C04] wf.sized: dictSized(rd)
-//@ ensures [C04] wf.fwd: dictFwd(rd)
-//@ ensures [C04] wf.bwd: dictBwd(rd)
+//@ ensures optin [C04] wf.sized: dictSized(rd)
+//@ ensures optin [C04] wf.fwd: dictFwd(rd)
+//@ ensures optin [C04] wf.bwd: dictBwd(rd)
 //@ loop 1 invariant len(buckets) == int(bucketCount) && rd.buckets == old(rd.buckets)
 //@ loop 1 invariant kept: allsel(j, 0, ri1, rd.buckets[j] == nil || buckets[dslot(rd.buckets[j].fullHash, len(buckets))] == rd.buckets[j])
 //@ loop 1 invariant placed: allsel(t, 0, len(buckets), buckets[t] == nil || (dslot(buckets[t].fullHash, len(buckets)) == t && dslot(buckets[t].fullHash, len(rd.buckets)) < ri1 && rd.buckets[dslot(buckets[t].fullHash, len(rd.buckets))] == buckets[t]))
@@ -114,13 +114,14 @@ package redisemu
 //@ ghostafter "dict := &redisDict{" : dict.scratch = true
 //@ ensures result != nil && result.count == 0 && result.scratch && !result.dirty && !result.keyspace
 //@ ensures fresh: asref(result) >= old(alloc())
-//@ ensures [C04] wf.sized: dictSized(result)
-//@ ensures [C04] wf.fwd: dictFwd(result)
-//@ ensures [C04] wf.bwd: dictBwd(result)
+//@ ensures optin [C04] wf.sized: dictSized(result)
+//@ ensures optin [C04] wf.fwd: dictFwd(result)
+//@ ensures optin [C04] wf.bwd: dictBwd(result)
 //@ ensures [C04,C05] empty: dictEmptyView(result)
 
 //@ func redisDict.store
 //@ safetyprop C13
+//@ use redisDict.rehash.*
 //@ prop C04 C05 C08 C16 C10 C06 C19
 //@ nomerge
 //@ requires rd != nil
@@ -136,9 +137,9 @@ package redisemu
 //@ ghostafter "rd.buckets[bucketNumber] = item" : rd.vval = mapset(rd.vval, key, val)
 //@ loop 1 invariant rd.buckets == old(rd.buckets) && rd.count == old(rd.count) && rd.vdom == old(rd.vdom) && rd.vval == old(rd.vval) && rd.dirty && item == rd.buckets[bucketNumber] && item != nil
 //@ loop 1 invariant n == 0 || (n&(n-1) == 0 && int(n) >= len(rd.buckets))
-//@ ensures [C04] wf.sized: dictSized(rd)
-//@ ensures [C04] wf.fwd: dictFwd(rd)
-//@ ensures [C04] wf.bwd: dictBwd(rd)
+//@ ensures optin [C04] wf.sized: dictSized(rd)
+//@ ensures optin [C04] wf.fwd: dictFwd(rd)
+//@ ensures optin [C04] wf.bwd: dictBwd(rd)
 //@ ensures [C04,C05] view.dom: rd.vdom == mapset(old(rd.vdom), key, true)
 //@ ensures [C04,C05] view.val: rd.vval == mapset(old(rd.vval), key, val)
 //@ ensures [C04,C05] count: rd.count == old(rd.count) + ite(old(rd.vdom[key]), 0, 1)
@@ -150,6 +151,7 @@ package redisemu
 
 //@ func redisDict.remove
 //@ safetyprop C13
+//@ use redisDict.rehash.*
 //@ prop C04 C05 C08 C16 C19
 //@ nomerge
 //@ requires rd != nil
@@ -161,9 +163,9 @@ package redisemu
 //@ ghostafter "rd.buckets[bucketNumber] = nil" : if !rd.scratch : mutated = true
 //@ ghostafter "rd.buckets[bucketNumber] = nil" : if rd.keyspace : removedKey = true
 //@ loop 1 invariant reducable && i&1 == 0 && 0 <= i && i <= len(rd.buckets) && allsel(p, 0, i, p&1 == 1 || rd.buckets[p] == nil || rd.buckets[p+1] == nil)
-//@ ensures [C04] wf.sized: dictSized(rd)
-//@ ensures [C04] wf.fwd: dictFwd(rd)
-//@ ensures [C04] wf.bwd: dictBwd(rd)
+//@ ensures optin [C04] wf.sized: dictSized(rd)
+//@ ensures optin [C04] wf.fwd: dictFwd(rd)
+//@ ensures optin [C04] wf.bwd: dictBwd(rd)
 //@ ensures [C04,C05] found: exists == old(rd.vdom[key])
 //@ ensures [C04,C05] view.dom: rd.vdom == mapset(old(rd.vdom), key, false)
 //@ ensures [C04,C05] view.val: rd.vval == old(rd.vval)
@@ -218,6 +220,6 @@ package redisemu
 //@ ensures result != nil && result.scratch && result.count == rd.count && !result.keyspace && !result.dirty
 //@ ensures fresh: asref(result) >= old(alloc())
 //@ ensures [C04,C05] view: result.vdom == rd.vdom && result.vval == rd.vval
-//@ ensures [C04] wf.sized: dictSized(result)
-//@ ensures [C04] wf.fwd: dictFwd(result)
-//@ ensures [C04] wf.bwd: dictBwd(result)
+//@ ensures optin [C04] wf.sized: dictSized(result)
+//@ ensures optin [C04] wf.fwd: dictFwd(result)
+//@ ensures optin [C04] wf.bwd: dictBwd(result)
